@@ -73,6 +73,13 @@ def debug_clause(ctx, traces):
                 ctx.violation("debug.changed", f"debug node of {c['name']} at step {k} records {got}, the model "
                               f"changed {exp}", case, {})
 
+def case_info(trace, sig):
+    """Matching information for recorded findings (known_findings.json)."""
+    meta = trace.get("meta", {})
+    return {"wavelength_grid_moves": bool((meta.get("extra") or {}).get("photon3d_shift")),
+            "debug": bool(meta.get("debug")), "hier": bool(meta.get("hier")), "session": bool(meta.get("session"))}
+
+
 def session_debug(ctx, traces):
     """Debug record of every run of a session: exactly the models this run executed, at this run's times
     (nothing of an earlier run on the same detector)."""
@@ -110,10 +117,16 @@ def run(ctx):
         extra = {"fdt": safe_fdt(c, FLT[k % 3])}
         if k % 7 == 3:
             extra["photon3d"] = 3
+        if k % 7 == 3 and k % 2 == 0:
+            # the wavelength grid moves from readout to readout (with debug only in the hierarchical layout: the
+            # flat layout of the pinned tree refuses debug records whose wavelength grids differ)
+            extra["photon3d_shift"] = True
         if k % 14 == 3 or (k % 7 == 3 and any(m["kind"] in ("set", "cset") and m["b"] == "photon" and m["mask"] != 0 and m["enabled"]
                                                for g in c["pipe"] for m in g) and k % 2):
             extra["photon3d_coords"] = True
         jobs.append(dict(cfg=c, hier=bool(k % 2), extra=extra, debug=False))
+        if extra.get("photon3d_shift"):
+            jobs.append(dict(cfg=c, hier=False, extra=extra, debug=True))      # (known finding `debug.flat-wavelength`)
         jobs.append(dict(cfg=c, hier=bool((k + 1) % 2), extra=extra, debug=True,
                          construction="yaml" if k % 3 == 0 else "python"))
     traces = P.record(jobs)
@@ -122,7 +135,7 @@ def run(ctx):
     ctx.cov["replayed_cases"] += len(traces)
     ctx.sample({"cfg_times": jobs[5]["cfg"]["times"], "events_tail": traces[5]["events"][-1:]})
     debug_clause(ctx, traces)
-    P.validate(ctx, traces, "replay")
+    P.validate(ctx, traces, "replay", known=case_info)
 
     n = ctx.pick(120, 2500)
     jobs = []
@@ -158,12 +171,12 @@ def replay(ctx, payload):
                                    debug=meta.get("debug", False), hier=meta.get("hier", False),
                                    kind=meta.get("detector", "ccd"))
         session_debug(ctx, [tr])
-        P.validate(ctx, [tr], "replay")
+        P.validate(ctx, [tr], "replay", known=case_info)
         return ctx.finish()
     tr = runner.record_exposure(cfg=case["cfg"], construction=meta.get("construction", "python"),
                                 debug=meta.get("debug", False), hier=meta.get("hier", False),
                                 extra=meta.get("extra"), kind=meta.get("detector", "ccd"))
     tr["meta"]["extra"] = meta.get("extra")
     debug_clause(ctx, [tr])
-    P.validate(ctx, [tr], "replay")
+    P.validate(ctx, [tr], "replay", known=case_info)
     return ctx.finish()
